@@ -32,12 +32,14 @@ from fractions import Fraction
 from vlib.pipeline import Case, ROOT
 from vlib import gen
 
+import props.c19_bm as bm
+
 PID = "C19"
 GEN = []
-LEAN = ["Ymq.Props.C19"]
+LEAN = ["Ymq.Props.C19"] + bm.LEAN
 AUDIT = "Ymq.Audit.C19"
 THEOREMS = ["Ymq.C19." + t for t in (
-    "crt_symmetric crt_sparse_symmetric perm_sign snf_ops_unimodular_partial snf_diag snf_reduce_cols_iso_partial echelon_det_partial det_exact_partial crt_symmetric_closed").split()]
+    "crt_symmetric crt_sparse_symmetric perm_sign snf_ops_unimodular_partial snf_diag snf_reduce_cols_iso_partial echelon_det_partial det_exact_partial crt_symmetric_closed").split()] + bm.THEOREMS
 HYPOTHESES = ["inv_mod64_spec = Ymq.IntMat.InvSpec (theorems crt_symmetric, crt_sparse_symmetric, det_exact_partial): arith::inv_mod64(a, p) on u64 "
               "arguments returns Some(i) with i < p and a*i = 1 (mod p) whenever p > 1 and gcd(a, p) = 1; discharged for the model invMod64 that the "
               "driver runs by theorem invMod64_spec of property C08 (invMod64_invSpec, crt_symmetric_closed has no hypothesis left)"]
@@ -1286,7 +1288,8 @@ def _all_cases(tier, rng, extended):
 def cases(tier, rng, extended=False):
     brng = _fork(rng, "C19-boundary")           # before selftest draws from rng (it does so on the first call only)
     selftest(rng)
-    for c in itertools.chain(boundary_cases(brng, tier), _all_cases(tier, rng, extended)):
+    bmrng = _fork(rng, "C19-bm")
+    for c in itertools.chain(boundary_cases(brng, tier), bm.cases(tier, bmrng, extended), _all_cases(tier, rng, extended)):
         # the loops of reduce_cols / normalize / the permutation walk do not terminate when their arithmetic is wrong:
         # these requests take milliseconds, a short watchdog keeps a broken build from stalling the whole check
         if c.timeout is None:
@@ -1298,6 +1301,8 @@ def cases(tier, rng, extended=False):
 
 
 def followup(case, ans):
+    if case.op in bm.OPS:
+        return None
     """model requests built from the implementation's answer: SmithNormalForm::new / new+reduce with the
     lattice index found by the (unmodelled, floating-point guided) compute_lattice_index as input"""
     if case.op in ("im_echelon", "im_detp") and case.o and ans not in BAD:
@@ -1422,6 +1427,8 @@ def snf_final_check(ans_state, h, want_group, orig_rows=None, orig_gens=None):
 
 
 def oracle(case, ans):
+    if case.op in bm.OPS:
+        return bm.oracle(case, ans)
     op, a = case.op, case.args
     if op in ("im_crt", "im_crt_sparse"):
         res, primes = unlst(a[0]), unlst(a[1])
@@ -1733,6 +1740,8 @@ def pclass(k):
 
 
 def klass(case, ans):
+    if case.op in bm.OPS:
+        return bm.klass(case, ans)
     op, a = case.op, case.args
     bad = "/" + ans if ans in BAD else ""
     try:
@@ -1790,6 +1799,8 @@ def klass(case, ans):
 
 
 def nontrivial(case, ans):
+    if case.op in bm.OPS:
+        return bm.nontrivial(case, ans)
     return len(case.line) > 24
 
 
@@ -2024,6 +2035,8 @@ def finding_key(case, ans, profile):
     """stable keys of the documented limitations (known_findings.json). A key is returned only when the documented
     CAUSE of the finding is re-computed for this input (and, where a Lean model exists, the model shows the same
     behaviour); any other failure of the same routine is a new failure."""
+    if case.op in bm.OPS:
+        return bm.finding_key(case, ans, profile)
     ck = (case.line, ans)
     if ck not in _KEYCACHE:
         try:
@@ -2185,3 +2198,9 @@ LEVEL_NOTE = ("Partial by design: the floating-point estimate windows of compute
               "models' correspondence to the Rust code (sampled in both profiles, not proved), Python integers (and IEEE doubles for the caller-side Gram "
               "estimate of im_det_gram) in the oracle.")
 TECHNIQUE = "Lean 4 proof about a hand model + differential correspondence check + spec oracle"
+
+
+# ---- Berlekamp-Massey (props/c19_bm.py): lists and texts merged into this property
+MODELLED = list(MODELLED) + list(bm.MODELLED)
+UNMODELLED = list(UNMODELLED) + list(bm.UNMODELLED)
+RULE = RULE + " " + bm.RULE_BM
